@@ -61,7 +61,7 @@ def accept (hash : ID → Nat) (t : PTbl) (n : Sub) : PTbl × List PEv × Bool :
     | .collide => (t, [], false)          -- fix: `!ok || c.ID != n.Device`
     | .own c =>
       if nop n then (t, [], true)
-      else (t.set (hash n.dev) { c with q := c.q ++ [{ dev := n.dev, pid := n.pid, job := n.job }] },
+      else (t.set (hash n.dev) { c with q := c.q ++ [{ dev := n.dev, pid := n.pid, job := n.job, crypt := hasFlag n.flags flagCrypt }] },
             [.queued c.id n.dev n.pid n.job], true)
 
 /-- `receive(parent, nil, n)` on the client that runs the proxy (routing part only). -/
@@ -77,8 +77,20 @@ def receiveDown (hash : ID → Nat) (parent : ID) (t : PTbl) (n : Sub) : PTbl ×
   else if hasFlag n.flags flagFrag then (t, [], .error .unmodelled)
   else (t, [.parentRecv parent n.dev n.pid n.job], .ok ())
 
+/-- what one `proxyClient.next` call takes from a non-empty queue: `nextPacket` packs the first
+packet whatever it is and stops in front of a later one that carries key material -/
+def takeClient : List Leaf → List Leaf × List Leaf
+  | [] => ([], [])
+  | l :: ls => (l :: ls.takeWhile (fun x => !x.crypt), ls.dropWhile (fun x => !x.crypt))
+
 /-- `proxyClient.next(false)` -/
-def nextAll (c : Client) : List Leaf := if c.q.isEmpty then [{ dev := c.id, pid := 0, job := 0 }] else c.q
+def nextAll (c : Client) : List Leaf :=
+  if c.q.isEmpty then [{ dev := c.id, pid := 0, job := 0 }] else (takeClient c.q).1
+
+/-- the client after that call -/
+def Client.kept (c : Client) : Client := { c with q := (takeClient c.q).2 }
+
+@[simp] theorem Client.kept_id (c : Client) : c.kept.id = c.id := rfl
 
 /-- everything `Proxy.talk` does after the look-up, for the client `c` of the sender (`ok`: it
 existed before); `h` is the packet header with `FlagProxy` set, `i` the slot. -/
@@ -90,7 +102,7 @@ def talkCont (i : Nat) (h : Sub) (t : PTbl) (c : Client) (ok : Bool) (ev : List 
       .ok { ok := false, host := none, next := [{ dev := h.dev, pid := svShutdown, job := h.job }], subs := [] })
   else
     -- processSingle: Proxy.notify forwards everything that is not a keep-alive
-    (t.set i { c with q := [] }, ev ++ (if nop h then [] else [.fwd h.dev h.pid h.job]),
+    (t.set i c.kept, ev ++ (if nop h then [] else [.fwd h.dev h.pid h.job]),
       .ok { ok := ok, host := some c.id, next := nextAll c, subs := [] })
 
 /-- `Proxy.talk(a, n)` for a packet without tags that is not a multi-device batch. -/
@@ -106,7 +118,7 @@ def talk (hash : ID → Nat) (closing : Bool) (t : PTbl) (n : Pkt) : PTbl × Lis
   | .absent =>
     if h.pid != svHello then (t, [], reg)
     else
-      let c : Client := { id := h.dev, q := [{ dev := h.dev, pid := svComplete, job := h.job }] }
+      let c : Client := { id := h.dev, q := [{ dev := h.dev, pid := svComplete, job := h.job, crypt := true }] }
       talkCont i h (t.set i c) c false [.reg c.id h.dev, .fwd h.dev h.pid h.job]
   | .own c => talkCont i h t c true []
 
@@ -117,12 +129,12 @@ def talkSubCont (i : Nat) (n : Sub) (o : Bool) (t : PTbl) (c : Client) (ev : Lis
   if nop n then
     let ev := ev ++ [.fwd n.dev n.pid n.job]
     if o then (t, ev, .ok { host := some c.id, key := i, reply := [] })
-    else (t.set i { c with q := [] }, ev, .ok { host := some c.id, key := i, reply := c.q })
+    else (t.set i c.kept, ev, .ok { host := some c.id, key := i, reply := (takeClient c.q).1 })
   else if n.pid == svShutdown then
     (t, ev ++ [.closeReq c.id n.dev, .fwd n.dev n.pid n.job],
       .ok { host := none, key := 0, reply := [{ dev := n.dev, pid := svShutdown, job := n.job }] })
   else if o then (t, ev, .ok { host := some c.id, key := i, reply := [] })
-  else (t.set i { c with q := [] }, ev, .ok { host := some c.id, key := i, reply := c.q })
+  else (t.set i c.kept, ev, .ok { host := some c.id, key := i, reply := (takeClient c.q).1 })
 
 /-- `Proxy.talkSub(a, n, o)` -/
 def talkSub (hash : ID → Nat) (closing : Bool) (t : PTbl) (n : Sub) (o : Bool) :
@@ -135,7 +147,7 @@ def talkSub (hash : ID → Nat) (closing : Bool) (t : PTbl) (n : Sub) (o : Bool)
   | .absent =>
     if n.pid != svHello then (t, [], reg)
     else
-      let c : Client := { id := n.dev, q := [{ dev := n.dev, pid := svComplete, job := n.job }] }
+      let c : Client := { id := n.dev, q := [{ dev := n.dev, pid := svComplete, job := n.job, crypt := true }] }
       talkSubCont i n o (t.set i c) c [.reg c.id n.dev]
   | .own c => talkSubCont i n o t c []
 
